@@ -22,7 +22,7 @@ Family == {
      Cell("list", <<VRef(3), VInt(1)>>),
      Cell("obj", << <<VStr("a"), VRef(1)>> >>) >>,
   \* sets, tuples, strings (strings are not traversed), nested list
-  << Cell("obj", << <<VStr("a"), VRef(2)>>, <<VStr("b"), VStr("uv")>>, <<VStr("c"), VRef(3)>> >>),
+  << Cell("obj", << <<VStr("a"), VRef(2)>>, <<VStr("b"), VStr("uv")>>, <<VStr("c"), VRef(3)>>, <<VStr("d"), VSent("BY")>> >>),      \* BY: a bytes value, a leaf like a string
      Cell("set", <<VInt(1)>>),
      Cell("tuple", <<VInt(2), VRef(4)>>),
      Cell("list", <<VRef(2), VRef(5)>>),
@@ -35,7 +35,12 @@ Family == {
   << Cell("list", <<VRef(2), VRef(3), VInt(7), VRef(2)>>),
      Cell("dict", << <<VStr("a"), VInt(1)>>, <<VStr("b"), VRef(4)>> >>),
      Cell("obj", << <<VStr("a"), VRef(4)>> >>),
-     Cell("list", <<VRef(3)>>) >> }
+     Cell("list", <<VRef(3)>>) >>,
+  \* an OrderedDict (the harness builds it so that its own order differs from the raw order of the
+  \* underlying dict, as after move_to_end): children in ITS order
+  << Cell("odict", << <<VStr("b"), VRef(2)>>, <<VStr("a"), VInt(5)>>, <<VStr("c"), VRef(3)>> >>),
+     Cell("list", <<VInt(1), VRef(3)>>),
+     Cell("odict", << <<VStr("a"), VInt(7)>>, <<VStr("0"), VInt(8)>> >>) >> }
 
 O(op, arg) == [op |-> op, arg |-> arg]
 StepSet == {O("x", VNone), O("X", VNone), O("P", VStr("a")), O("P", VStr("0")), O("P", VStr("b")),
